@@ -267,11 +267,11 @@ func Eq(a, b *Term) *Term {
 		if a.IsConst() && b.Op == "bvadd" && b.Args[1].IsConst() {
 			return Eq(b.Args[0], BV(new(big.Int).Sub(a.Val, b.Args[1].Val), a.S.W))
 		}
-		// ite(c, k1, k2) == k with constants
-		if b.IsConst() && a.Op == "ite" && a.Args[1].IsConst() && a.Args[2].IsConst() {
+		// ite-tree of constants == k
+		if b.IsConst() && a.Op == "ite" && constTree(a, 6) {
 			return Ite(a.Args[0], Eq(a.Args[1], b), Eq(a.Args[2], b))
 		}
-		if a.IsConst() && b.Op == "ite" && b.Args[1].IsConst() && b.Args[2].IsConst() {
+		if a.IsConst() && b.Op == "ite" && constTree(b, 6) {
 			return Ite(b.Args[0], Eq(b.Args[1], a), Eq(b.Args[2], a))
 		}
 		// zero_extend(x) == const
@@ -287,6 +287,17 @@ func Eq(a, b *Term) *Term {
 		a, b = b, a
 	}
 	return mk(&Term{Op: "=", S: BoolS, Args: []*Term{a, b}})
+}
+
+// constTree: t is a constant or an ite whose leaves are constants (depth-limited).
+func constTree(t *Term, depth int) bool {
+	if t.IsConst() {
+		return true
+	}
+	if t.Op != "ite" || depth == 0 {
+		return false
+	}
+	return constTree(t.Args[1], depth-1) && constTree(t.Args[2], depth-1)
 }
 
 func signed(v *big.Int, w int) *big.Int {
@@ -483,11 +494,11 @@ func CmpBV(op string, a, b *Term) *Term { // bvult bvule bvslt bvsle
 	if op == "bvule" && a.IsConst() && a.Val.Sign() == 0 {
 		return True
 	}
-	// ite(c,k1,k2) cmp k
-	if b.IsConst() && a.Op == "ite" && a.Args[1].IsConst() && a.Args[2].IsConst() {
+	// ite-tree of constants cmp k: push the comparison to the leaves
+	if b.IsConst() && a.Op == "ite" && constTree(a, 6) {
 		return Ite(a.Args[0], CmpBV(op, a.Args[1], b), CmpBV(op, a.Args[2], b))
 	}
-	if a.IsConst() && b.Op == "ite" && b.Args[1].IsConst() && b.Args[2].IsConst() {
+	if a.IsConst() && b.Op == "ite" && constTree(b, 6) {
 		return Ite(b.Args[0], CmpBV(op, a, b.Args[1]), CmpBV(op, a, b.Args[2]))
 	}
 	return mk(&Term{Op: op, S: BoolS, Args: []*Term{a, b}})
@@ -559,6 +570,19 @@ func Concat(a, b *Term) *Term {
 	if a.Op == "extract" && b.Op == "extract" && a.Args[0] == b.Args[0] && a.B == b.A+1 {
 		return Extract(a.A, b.B, a.Args[0])
 	}
+	// concat(concat(p, extract(h,m+1,x)), extract(m,l,x)) = concat(p, extract(h,l,x))
+	if a.Op == "concat" && b.Op == "extract" {
+		q := a.Args[1]
+		if q.Op == "extract" && q.Args[0] == b.Args[0] && q.B == b.A+1 {
+			return Concat(a.Args[0], Extract(q.A, b.B, q.Args[0]))
+		}
+		if q.IsConst() && b.IsConst() {
+			return Concat(a.Args[0], Concat(q, b))
+		}
+	}
+	if a.Op == "concat" && b.IsConst() && a.Args[1].IsConst() {
+		return Concat(a.Args[0], Concat(a.Args[1], b))
+	}
 	return mk(&Term{Op: "concat", S: BVS(a.S.W + b.S.W), Args: []*Term{a, b}})
 }
 
@@ -593,6 +617,21 @@ func distinctIdx(a, b *Term) bool {
 	return ba == bb && ca.Cmp(cb) != 0
 }
 
+// BVArr is an array whose first n bytes are the bytes of the wide bit-vector w (big endian:
+// index 0 is the most significant byte) and zero elsewhere. Fixed-size byte strings
+// (addresses, hashes, keys) are kept in this form so that equality and ordering are single
+// wide bit-vector atoms instead of per-byte array reads.
+func BVArr(w *Term, n int) *Term {
+	if w.S.W != 8*n {
+		panic("BVArr width")
+	}
+	return mk(&Term{Op: "bvarr", S: MemS, Args: []*Term{w}, A: n})
+}
+
+func bvarrByte(w *Term, n, i int) *Term { return Extract(8*(n-i)-1, 8*(n-i-1), w) }
+
+// Select pushes reads through stores and array-valued ites, so that formulas contain reads of
+// array variables only (no store terms): solvers then treat arrays like uninterpreted functions.
 func Select(m, i *Term) *Term {
 	for {
 		switch m.Op {
@@ -604,8 +643,26 @@ func Select(m, i *Term) *Term {
 				m = m.Args[0]
 				continue
 			}
+			return Ite(Eq(m.Args[1], i), m.Args[2], Select(m.Args[0], i))
 		case "constarr":
 			return m.Args[0]
+		case "ite":
+			return Ite(m.Args[0], Select(m.Args[1], i), Select(m.Args[2], i))
+		case "bvarr":
+			n := m.A
+			w := m.Args[0]
+			if i.IsConst() {
+				if i.Val.IsInt64() && i.Val.Int64() < int64(n) {
+					return bvarrByte(w, n, int(i.Val.Int64()))
+				}
+				return BVu(0, 8)
+			}
+			// symbolic index: case split over the n positions
+			r := BVu(0, 8)
+			for k := n - 1; k >= 0; k-- {
+				r = Ite(Eq(i, Idx(k)), bvarrByte(w, n, k), r)
+			}
+			return r
 		}
 		break
 	}
@@ -620,7 +677,44 @@ func Store(m, i, v *Term) *Term {
 	if v.Op == "select" && v.Args[0] == m && v.Args[1] == i {
 		return m
 	}
+	if m.Op == "bvarr" && i.IsConst() && i.Val.IsInt64() && i.Val.Int64() < int64(m.A) {
+		n, k, w := m.A, int(i.Val.Int64()), m.Args[0]
+		nw := v
+		if k > 0 {
+			nw = Concat(Extract(8*n-1, 8*(n-k), w), nw)
+		}
+		if k < n-1 {
+			nw = Concat(nw, Extract(8*(n-k-1)-1, 0, w))
+		}
+		return BVArr(nw, n)
+	}
 	return mk(&Term{Op: "store", S: MemS, Args: []*Term{m, i, v}})
+}
+
+// WordOf packs n bytes of array a starting at offset o into one bit-vector (big endian).
+func WordOf(a, o *Term, n int) *Term {
+	if n == 0 {
+		return nil
+	}
+	if a.Op == "ite" {
+		return Ite(a.Args[0], WordOf(a.Args[1], o, n), WordOf(a.Args[2], o, n))
+	}
+	if a.Op == "bvarr" && o.IsConst() && o.Val.IsInt64() {
+		k := int(o.Val.Int64())
+		if k+n <= a.A {
+			return Extract(8*(a.A-k)-1, 8*(a.A-k-n), a.Args[0])
+		}
+	}
+	var t *Term
+	for i := 0; i < n; i++ {
+		x := Select(a, Add(o, Idx(i)))
+		if t == nil {
+			t = x
+		} else {
+			t = Concat(t, x)
+		}
+	}
+	return t
 }
 func ConstArr(v *Term) *Term { return mk(&Term{Op: "constarr", S: MemS, Args: []*Term{v}}) }
 
@@ -690,6 +784,12 @@ func (p *printer) expr(t *Term) string {
 		return fmt.Sprintf("((_ %s %d) %s)", t.Op, t.A, args[0])
 	case "constarr":
 		return fmt.Sprintf("((as const %s) %s)", MemS, args[0])
+	case "bvarr":
+		r := fmt.Sprintf("((as const %s) #x00)", MemS)
+		for i := 0; i < t.A; i++ {
+			r = fmt.Sprintf("(store %s #x%016x ((_ extract %d %d) %s))", r, i, 8*(t.A-i)-1, 8*(t.A-i-1), args[0])
+		}
+		return r
 	case "app":
 		if _, ok := p.ufs[t.Name]; !ok {
 			var ss []string
@@ -759,14 +859,14 @@ func Script(as []*Term, extra []*Term) (string, []string) {
 	return out.String(), refs
 }
 
-// short rendering for evidence samples
+// short rendering for evidence samples (sharing preserved: never expands the DAG)
 func (t *Term) String() string {
-	p := &printer{done: map[int]bool{}, vars: map[string]Sort{}, ufs: map[string]string{}, count: map[int]int{}}
-	s := p.ref(t)
-	if len(s) > 300 {
-		s = s[:300] + "…"
+	sc, _ := Script([]*Term{t}, nil)
+	sc = strings.ReplaceAll(sc, "\n", " ")
+	if len(sc) > 400 {
+		sc = sc[:400] + "…"
 	}
-	return s
+	return sc
 }
 
 // evalTerm evaluates a term under a model of variables (bv/bool only; arrays via arrModel
